@@ -8,7 +8,7 @@ Element deviations (all JSON lists; limits are *kinds* resolved by plim()/qlim()
 like the alphabet it was drawn from):
     ["gen", bus, p, vm, plim, qlim, controllable]
     ["sgen" | "load" | "storage", bus, p, q, plim, qlim, controllable]      (controllable: True / False)
-    ["dcline", from_bus, to_bus, p, loss_percent, loss_mw, max_p, qlim]
+    ["dcline", from_bus, to_bus, p, loss_percent, loss_mw, max_p, qlim(, qlim_to)]
     ["eg", plim, qlim, ctrl]        limits / controllable column of the base net's ext_grid 0 (ctrl: "nocol"/True/False)
     ["gvm", k, lo, hi]              gen-level min_vm_pu / max_vm_pu of the k-th element of the case (a gen)
     ["oos", k]                      k-th element of the case out of service
@@ -108,13 +108,15 @@ VLIM = {
     "nan": lambda b, hot: (np.nan, np.nan) if b == hot[0] else (0.95, 1.05),
 }
 
-# branch limit alphabets: kind -> base -> list of (table, index, max_loading_percent)
+# branch limit alphabets: kind -> base -> list of (table, index, max_loading_percent, df)
+# one limited branch per base carries a derating factor df != 1 (the rating then is max_i_ka * df resp. sn_mva * df)
 BLIM = {
     "none": {},
-    "bind": {"D2": [("line", 0, 9.)], "R3": [("line", 0, 9.), ("line", 1, 6.)],
-             "M4": [("line", 0, 14.), ("line", 4, 12.)], "T3": [("trafo", 0, 22.), ("line", 0, 30.)]},
+    "bind": {"D2": [("line", 0, 9., 1.)], "R3": [("line", 0, 15., 0.6), ("line", 1, 6., 1.)],
+             "M4": [("line", 0, 23.3, 0.6), ("line", 4, 12., 1.)], "T3": [("trafo", 0, 27.5, 0.8), ("line", 0, 30., 1.)]},
     # only the first branch limited, the others NaN (no limit)
-    "bind1": {"D2": [("line", 0, 9.)], "R3": [("line", 1, 6.)], "M4": [("line", 4, 12.)], "T3": [("trafo", 0, 22.)]},
+    "bind1": {"D2": [("line", 0, 9., 1.)], "R3": [("line", 1, 6., 1.)], "M4": [("line", 4, 12., 1.)],
+              "T3": [("trafo", 0, 22., 1.)]},
 }
 
 
@@ -144,10 +146,11 @@ def apply_elem(net, d, s, where):
             i = pp.create_storage(net, bus, p, 10. * s, q_mvar=q, **kw)
         where.append((k, int(i)))
     elif k == "dcline":
-        _, fb, tb, p, lp, lmw, maxp, ql = d
+        _, fb, tb, p, lp, lmw, maxp, ql = d[:8]
         qlo, qhi = qlim(ql, 0., s)
+        tlo, thi = qlim(d[8], 0., s) if len(d) > 8 else (qlo, qhi)     # optional 9th item: q-limit kind of the to side
         i = pp.create_dcline(net, fb, tb, p, lp, lmw, 1.01, 1.0, max_p_mw=maxp, min_q_from_mvar=qlo,
-                             max_q_from_mvar=qhi, min_q_to_mvar=qlo, max_q_to_mvar=qhi)
+                             max_q_from_mvar=qhi, min_q_to_mvar=tlo, max_q_to_mvar=thi)
         where.append(("dcline", int(i)))
     elif k == "eg":
         _, pl, ql, ctrl = d
@@ -207,10 +210,11 @@ def build(case):
         lims = [f(int(bb), HOT[b]) for bb in net.bus.index]
         net.bus["min_vm_pu"] = [x[0] for x in lims]
         net.bus["max_vm_pu"] = [x[1] for x in lims]
-    for tab, i, ml in BLIM[case.get("blim", "none")].get(b, ()):
+    for tab, i, ml, df in BLIM[case.get("blim", "none")].get(b, ()):
         if "max_loading_percent" not in net[tab]:
             net[tab]["max_loading_percent"] = np.nan
         net[tab].at[i, "max_loading_percent"] = ml
+        net[tab].at[i, "df"] = df
     for c in case.get("costs", ()):
         apply_cost(net, c, where)
     return net, where
